@@ -292,6 +292,11 @@ class PyModel:
             return node.value
         if isinstance(node, ast.Name):
             return env.get(node.id, U)
+        if isinstance(node, (ast.Attribute, ast.Call, ast.Subscript)) and env.get("__by_text__"):
+            # symbolic placeholders keyed by source text, e.g. {"self.ident": "{ident}"}
+            k = ast.unparse(node)
+            if k in env:
+                return env[k]
         if isinstance(node, (ast.Tuple, ast.List)):
             out = []
             for e in node.elts:
